@@ -110,12 +110,14 @@ func c17Start(n int, maxCount int64) (*c17Cluster, error) {
 	for i := 0; i < n; i++ {
 		dir := filepath.Join(tmp, fmt.Sprintf("node%d", i))
 		nd, err := cluster.NewNode(cluster.ClusterNodeConfig{
-			RootDir:            dir,
-			RpcHost:            "localhost",
-			RpcPort:            ports[i],
-			RpcTimeout:         5,
-			RpcRetries:         1,
-			Servers:            append([]string{}, cl.servers...),
+			RootDir:    dir,
+			RpcHost:    "localhost",
+			RpcPort:    ports[i],
+			RpcTimeout: 5,
+			RpcRetries: 1,
+			// every node lists the same set of servers, starting with itself (a valid configuration: placement is a
+			// function of the set)
+			Servers:            append(append([]string{}, cl.servers[i:]...), cl.servers[:i]...),
 			ShardManager:       cluster.ShardManagerConfig{RootDir: filepath.Join(dir, "shard-root"), ShardTimeout: 300, MaxCacheSize: -1}, // not the node root
 			MaxShardSize:       1 << 30,
 			MaxShardPointCount: maxCount,
